@@ -338,4 +338,76 @@ theorem decodeType0_total (ext : Ext) (hext : ExtTotal ext) (data : Bytes) (oid 
   · exact hext.arr _ _
   · exact decodeScalar0_total ext hext data oid
 
+theorem readBound_total (ext : Ext) (hext : ExtTotal ext) (data : Bytes) (offset elemSize elemOid : Nat) :
+    Total (readBound ext data offset elemSize elemOid) := by
+  unfold readBound
+  refine total_ite (fun _ => total_pure _) (fun h => ?_)
+  exact total_bind (slice_total _ _ _ (by omega) (by omega)) fun _ =>
+    total_bind (decodeType0_total ext hext _ _) fun _ => total_pure _
+
+theorem decodeRangeFixed_total (ext : Ext) (hext : ExtTotal ext) (data : Bytes) (flags elemOid elemSize : Nat) :
+    Total (decodeRangeFixed ext data flags elemOid elemSize) := by
+  unfold decodeRangeFixed
+  have hlow : Total (rangeLower ext data flags elemOid elemSize) := by
+    unfold rangeLower
+    refine total_iteB (fun _ => total_pure _) (fun _ => ?_)
+    refine total_bind (readBound_total ext hext _ _ _ _) fun r => ?_
+    cases r <;> exact total_pure _
+  refine total_bind hlow fun lower => ?_
+  cases lower with
+  | none => exact total_pure _
+  | some lo =>
+    obtain ⟨lb, offset⟩ := lo
+    have hup : Total (rangeUpper ext data flags elemOid elemSize offset) := by
+      unfold rangeUpper
+      exact total_iteB (fun _ => total_pure _) (fun _ => readBound_total ext hext _ _ _ _)
+    refine total_bind hup fun upper => ?_
+    cases upper <;> exact total_pure _
+
+theorem decodeRange_total (ext : Ext) (hext : ExtTotal ext) (data : Bytes) (oid : Nat) :
+    Total (decodeRange ext data oid) := by
+  unfold decodeRange
+  by_cases h : data.length < 5
+  · simp [h]; exact total_ok _
+  · simp only [h, if_false]
+    refine total_bind (idx_total _ _ (by omega)) fun fl => ?_
+    refine total_iteB (fun _ => total_pure _) (fun _ => ?_)
+    refine total_ite (fun _ => total_pure _) (fun _ => ?_)
+    split
+    · exact total_pure _
+    · exact decodeRangeFixed_total ext hext _ _ _ _
+
+theorem decodeScalar_total (ext : Ext) (hext : ExtTotal ext) (data : Bytes) (oid : Nat) :
+    Total (decodeScalar ext data oid) := by
+  unfold decodeScalar
+  exact total_iteB (fun _ => decodeRange_total ext hext _ _) (fun _ => decodeScalar0_total ext hext _ _)
+
+theorem decodeType_total (ext : Ext) (hext : ExtTotal ext) (data : Bytes) (oid : Nat) :
+    Total (decodeType ext data oid) := by
+  unfold decodeType
+  refine total_ite (fun _ => total_pure _) (fun _ => ?_)
+  split
+  · exact hext.arr _ _
+  · exact decodeScalar_total ext hext data oid
+
+theorem bitChars_length (data : Bytes) (n i : Nat) : (bitChars data n i).length = n := by
+  induction n generalizing i with
+  | zero => rfl
+  | succ n ih => simp [bitChars, ih]
+
+theorem bitString_bounded (data : Bytes) (s : Bytes) (h : decodeBitString data = .ok (.str s)) :
+    s.length ≤ 8 * data.length := by
+  unfold decodeBitString at h
+  by_cases hl : data.length < 4
+  · simp [hl] at h; subst h; simp
+  · simp only [hl, if_false] at h
+    obtain ⟨bl, hb⟩ := i32_total data 0 (by omega)
+    rw [hb] at h
+    simp only [ok_bind] at h
+    split at h
+    · injection h with h; injection h with h; subst h; simp
+    · injection h with h; injection h with h; subst h
+      rw [bitChars_length]
+      split <;> omega
+
 end PgVerif.Proofs.Scalars
